@@ -5,7 +5,8 @@ thread executes only while it holds the baton; it hands the baton back at every 
 
   * a `sys.settrace` 'line' event inside one of the anchored code objects (`codes`) - the thread
     stops BEFORE executing that line; the label of the stop is `(function name, line offset from
-    the `def` line)`;
+    the `def` line)`; with `opcodes=True` the thread stops before every BYTECODE instead
+    (`frame.f_trace_opcodes`), which is used for oracle-only runs;
   * the 'call' event of an *entry* code object (`BackgroundTask.run`) in a thread the real code
     created itself: the thread registers as worker `w<n>` and is held before its first instruction;
   * an instrumented blocking primitive (`Thread.join` on a managed thread): the caller is marked
@@ -62,9 +63,11 @@ class Rec:
 
 
 class Sched:
-    def __init__(self, codes, entry_codes=()):
+    def __init__(self, codes, entry_codes=(), opcodes=False):
         """codes: code objects whose lines are yield points; entry_codes: code objects whose
-        'call' in an unknown thread registers that thread as a worker."""
+        'call' in an unknown thread registers that thread as a worker; opcodes: yield before every
+        BYTECODE of the anchored functions instead of before every line."""
+        self.opcodes = opcodes
         self.codes = set(codes)
         self.entry = set(entry_codes)
         self.recs = {}              # tid -> Rec
@@ -76,6 +79,7 @@ class Sched:
         self._real_join = None
         self._installed = False
         self.current = None
+        self.killed = False
         self.on_worker = None       # callback(rec, thread) when a worker registers
         self.before_start = None    # callback(thread) just before a worker thread is really started
 
@@ -93,7 +97,7 @@ class Sched:
             if code in sched.entry and sched.before_start is not None:
                 sched.before_start(thr)
             sched._real_start(thr)
-            if code in sched.entry and sched._me() is not None:
+            if code in sched.entry and sched._me() is not None and not sched.killed:
                 rec = None
                 # the new thread registers itself at the 'call' event of run()
                 for _ in range(int(TIMEOUT * 100)):
@@ -114,6 +118,8 @@ class Sched:
             if thr is threading.current_thread():
                 return sched._real_join(thr, timeout)      # raises RuntimeError as the real one does
             while not target.done:
+                if me.kill:
+                    raise _Kill()       # ordinary code, not a trace function: always safe
                 me.blocked_on = target
                 sched._yield(me, me.at)
             me.blocked_on = None
@@ -147,10 +153,12 @@ class Sched:
         return None
 
     def _yield(self, rec, label):
+        if rec.kill and self.opcodes:
+            return                  # torn down cooperatively: the thread runs free to its end
         rec.at = label
         self.back.release()
         rec.go.acquire()
-        if rec.kill:
+        if rec.kill and not self.opcodes:
             raise _Kill()
 
     def _global_trace(self, frame, event, arg):
@@ -161,7 +169,7 @@ class Sched:
             return None
         rec = self._me()
         if rec is None:
-            if code not in self.entry:
+            if code not in self.entry or self.killed:
                 return None
             # a thread created by the code under test: becomes worker w<n>, held before its first line
             thr = threading.current_thread()
@@ -177,7 +185,11 @@ class Sched:
             rec.registered.set()
             rec.go.acquire()            # wait for the first turn (the starter keeps the baton)
             if rec.kill:
+                if self.opcodes:
+                    return None
                 raise _Kill()
+        if self.opcodes:
+            frame.f_trace_opcodes = True
         return self._local_trace
 
     def _local_trace(self, frame, event, arg):
@@ -185,8 +197,9 @@ class Sched:
         if rec is None:
             return None
         code = frame.f_code
-        if event == 'line':
-            self._yield(rec, (code.co_qualname, frame.f_lineno - code.co_firstlineno))
+        if event == ('opcode' if self.opcodes else 'line'):
+            ln = frame.f_lineno          # None for bytecodes without a line (exception clean-up)
+            self._yield(rec, (code.co_qualname, -1 if ln is None else ln - code.co_firstlineno))
         elif event == 'return' and rec.kind == 'worker' and code in self.entry and not rec.done:
             # run() is left (normally or by an exception): the worker is finished
             self._worker_finished(rec)
@@ -196,7 +209,8 @@ class Sched:
     def _worker_finished(self, rec):
         rec.done = True
         rec.at = ('done', 0)
-        self.back.release()
+        if not rec.kill:
+            self.back.release()
 
     # ---- controller side ------------------------------------------------------------------
     def spawn(self, tid, fn):
@@ -224,7 +238,8 @@ class Sched:
                 rec.exc = e
             rec.done = True
             rec.at = ('done', 0)
-            sched.back.release()
+            if not rec.kill:
+                sched.back.release()
 
         t = threading.Thread(target=body, name='c20-' + tid, daemon=True)
         rec.thread = t
@@ -258,8 +273,12 @@ class Sched:
         return rec.at
 
     def kill_all(self):
-        """Tear-down: every managed thread raises _Kill at its current yield point."""
-        for r in self.recs.values():
+        """Tear-down.  Line mode: every managed thread raises SystemExit at its current yield point.
+        Bytecode mode: raising from an 'opcode' trace event can crash CPython 3.12, so the threads
+        are released to run free instead; their endless loops end because the caller has made the
+        logical clock's sleep() raise SystemExit (ordinary code)."""
+        self.killed = True
+        for r in list(self.recs.values()):
             r.kill = True
         for r in self.recs.values():
             if not r.done:
